@@ -381,9 +381,7 @@ pub fn pie_unwrap(ver: u8, kind_header: &str, wk: &[u8; 32], blob: &[u8]) -> Opt
 // ------------------------------------------------------------------------------------------ PBKW
 
 fn argon2id(pw: &[u8], salt: &[u8], mem_bytes: u64, time: u32, para: u32) -> Option<[u8; 32]> {
-    if mem_bytes % 1024 != 0 {
-        return None;
-    }
+    // PASERK passes memlimit (bytes) to crypto_pwhash, which uses floor(memlimit / 1024) KiB
     let params = argon2::Params::new(u32::try_from(mem_bytes / 1024).ok()?, time, para, Some(32)).ok()?;
     let a = argon2::Argon2::new(argon2::Algorithm::Argon2id, argon2::Version::V0x13, params);
     let mut out = [0u8; 32];
